@@ -2,10 +2,11 @@
 (* Reference (denotational) semantics of MediaWiki transclusion as stated   *)
 (* by property C04, over an abstract syntax:                                *)
 (*                                                                          *)
-(*   text    = Seq(Atom)         Atom: "a" "b" ... "SP" "NL" "*" "#" ":" .. *)
+(*   text    = Seq(Atom)         Atom: "a" "b" ... "SP" "NL" "TAB" "*" "#" ":" *)
 (*   content = Seq(item)                                                    *)
 (*   item    = [k |-> "t",  s    |-> text]                     plain text   *)
 (*           | [k |-> "p",  name |-> text, hasDef, def |-> content]  {{{n|d}}} *)
+(*             (a name may have several words: <<"f", "SP", "SP", "n">>, see KeyOf) *)
 (*           | [k |-> "pc", name |-> content, hasDef, def]   {{{computed|d}}} *)
 (*           | [k |-> "c",  name |-> Atom, args |-> Seq(arg)]   {{name|..}} *)
 (*           | [k |-> "if", c, y, n |-> content]                {{#if:c|y|n}} *)
@@ -23,7 +24,7 @@
 (* (as-is behaviour); the ideal is Dev = {}.                                *)
 EXTENDS Naturals, Sequences, FiniteSets, TLC
 
-WS == {"SP", "NL"}
+WS == {"SP", "NL", "TAB"}   \* blank, newline, tabulator (all stripped by trimming)
 LineMarkers == {"*", "#", ":", ";", "{|"}
 NumAtoms == <<"1", "2", "3", "4", "5", "6">>
 
@@ -37,6 +38,24 @@ Trim(s) == RTrim(LTrim(s))
 AddNL(s) == IF Len(s) > 0 /\ s[1] \in LineMarkers THEN <<"NL">> \o s ELSE s
 
 DropOneNL(s) == IF Len(s) > 0 /\ s[Len(s)] = "NL" THEN SubSeq(s, 1, Len(s) - 1) ELSE s
+
+(* ---------------- parameter names ---------------- *)
+\* The statement fixes that named keys are whitespace-TRIMMED; two written names denote the
+\* same parameter when their trimmed texts are equal.  A name may consist of several words
+\* separated by runs of blanks ("first  name", a name broken over two lines, a tabulator).
+\* The statement says nothing about such interior runs; the implementation additionally
+\* folds every interior run of blanks to one blank, at BOTH places where a name is read (the
+\* key of a named argument at the call, and the name of a {{{reference}}} in the body).  That
+\* convention is selected by "NameBlankRunsFolded" \in Dev (a convention switch, not a
+\* deviation from the statement).  For names that are written identically (up to padding)
+\* at the call and in the body both readings agree -- see LawSameWriting in Gen_Transclusion.
+RECURSIVE FoldRuns(_)
+FoldRuns(s) ==   \* every maximal run of blanks becomes one "SP"
+  IF s = <<>> THEN <<>>
+  ELSE IF Head(s) \in WS THEN <<"SP">> \o FoldRuns(LTrim(s)) ELSE <<Head(s)>> \o FoldRuns(Tail(s))
+NameFold == "NameBlankRunsFolded"
+\* canonical form of a written parameter name
+KeyOf(s, Dev) == IF NameFold \in Dev THEN FoldRuns(Trim(s)) ELSE Trim(s)
 
 (* ---------------- template names ---------------- *)
 \* A call may write the name of a template in several spellings (page-store rules,
@@ -116,14 +135,35 @@ ArgSrcDrop(c, f, Dev) ==
   ELSE LET n == Len(c) last == c[n] IN
        IF last.k = "t"
        THEN IF DropOneNL(last.s) = <<>> THEN SubSeq(c, 1, n - 1) ELSE [c EXCEPT ![n] = TxtItem(DropOneNL(last.s))]
-       ELSE IF last.k = "p" /\ HasKey(f, Trim(last.name))
-            THEN [c EXCEPT ![n] = TxtItem(DropOneNL(DropOneNL(ValueOf(f, Trim(last.name)))))]
+       ELSE IF last.k = "p" /\ HasKey(f, KeyOf(last.name, Dev))
+            THEN [c EXCEPT ![n] = TxtItem(DropOneNL(DropOneNL(ValueOf(f, KeyOf(last.name, Dev)))))]
        ELSE c
 ParamValue(f, key, Dev) ==
   IF "ArgTrailingNewlineDropped" \in Dev THEN DropOneNL(ValueOf(f, key)) ELSE ValueOf(f, key)
 
 RECURSIVE Eval(_, _, _, _), EvalItem(_, _, _, _), Bind(_, _, _, _, _, _), SwitchEval(_, _, _, _, _, _),
-          EvalJoin(_, _, _, _, _)
+          EvalJoin(_, _, _, _, _), LateKey(_, _, _, _)
+
+\* Deviation "ComputedNumericKeyNotPositional": the implementation decides whether the key of a named
+\* argument is a number (= the positional parameter of that number) on the WRITTEN key, before the key is
+\* expanded.  A key that becomes a positive numeral only by an expansion made at the call ({{T|{{one}}=v}},
+\* {{T|{{#if:x|1}}=v}}, on the page itself also {{T|{{{z|1}}}=v}}) is stored as a text key that no
+\* {{{1}}} can reach: the argument is lost.  Inside a template body parameter references of the key are
+\* substituted before the decision (expand_args), so {{T|{{{k}}}=v}} with k = 1 is not affected - unless the
+\* reference falls back to a default that itself needs expansion.
+Digits == {"0", "1", "2", "3", "4", "5", "6", "7", "8", "9"}
+IsPosNumeral(key) == /\ key # <<>> /\ \A i \in 1..Len(key) : key[i] \in Digits
+                     /\ \E i \in 1..Len(key) : key[i] # "0"
+\* the written key still contains something that is expanded only when the call is made
+LateKey(kc, f, lib, Dev) ==
+  \E i \in 1..Len(kc) :
+    LET it == kc[i] IN
+    \/ it.k \in {"c", "if", "eq", "sw"}
+    \/ it.k \in {"p", "pc"} /\ f.top
+    \/ /\ it.k \in {"p", "pc"} /\ ~f.top /\ it.hasDef
+       /\ ~HasKey(f, KeyOf(IF it.k = "p" THEN it.name ELSE Eval(it.name, f, lib, Dev), Dev))
+       /\ LateKey(it.def, f, lib, Dev)
+LostKey(key) == <<"(text key)">> \o key
 
 \* Eval(content, frame, lib, Dev) -> text
 Eval(c, f, lib, Dev) ==
@@ -134,7 +174,9 @@ Bind(args, i, pos, f, lib, Dev) ==
   IF i > Len(args) THEN <<>>
   ELSE LET a == args[i] IN
        IF a.named
-       THEN LET key == Trim(Eval(a.key, f, lib, Dev))
+       THEN LET k0 == KeyOf(Eval(a.key, f, lib, Dev), Dev)
+                key == IF "ComputedNumericKeyNotPositional" \in Dev /\ IsPosNumeral(k0) /\ LateKey(a.key, f, lib, Dev)
+                       THEN LostKey(k0) ELSE k0
                 val == IF "NamedValueTrimmedBeforeExpansion" \in Dev
                        THEN Eval(SrcTrim(a.val), f, lib, Dev)
                        ELSE Trim(Eval(a.val, f, lib, Dev))
@@ -166,13 +208,13 @@ EvalItem(it, f, lib, Dev) ==
     [] it.k = "l" -> <<"[[">> \o EvalJoin(it.args, 1, f, lib, Dev) \o <<"]]">>
     [] it.k = "x" -> <<"[", "http://x.y", "SP">> \o Eval(it.c, f, lib, Dev) \o <<"]">>
     [] it.k = "p" ->
-         LET key == Trim(it.name) IN
+         LET key == KeyOf(it.name, Dev) IN
          IF ~f.top /\ HasKey(f, key) THEN ParamValue(f, key, Dev)
          ELSE IF it.hasDef THEN Eval(it.def, f, lib, Dev)
          ELSE <<"{{{">> \o key \o <<"}}}">>
     \* {{{computed name|default}}}: the name is itself content, evaluated in the same frame
     [] it.k = "pc" ->
-         LET key == Trim(Eval(it.name, f, lib, Dev)) IN
+         LET key == KeyOf(Eval(it.name, f, lib, Dev), Dev) IN
          IF ~f.top /\ HasKey(f, key) THEN ParamValue(f, key, Dev)
          ELSE IF it.hasDef THEN Eval(it.def, f, lib, Dev)
          ELSE <<"{{{">> \o key \o <<"}}}">>
